@@ -73,8 +73,10 @@ func useParam(name, t string) string {
 		return fmt.Sprintf("fv(%s)", name)
 	case "[]int":
 		return name + ", len(" + name + ")"
-	case "int", "byte", "int8", "uint32", "float64":
-		return name + ", " + name + "*" + name // the square reveals the parameter's static type through wrap-around
+	case "int", "byte", "int8", "uint32":
+		return name + ", " + name + "*" + name + ", " + name + "*" + name + "*" + name + "*" + name + "*" + name // powers reveal the static type through wrap-around
+	case "float64":
+		return name + ", " + name + "*" + name + ", " + name + "/2" // the quotient reveals an operand that stayed an integer constant
 	}
 	return name
 }
@@ -84,7 +86,7 @@ func genCallProg(id int, seed int64) *Prog {
 	rng := g.rng
 	np := rng.Intn(6)
 	nr := rng.Intn(4)
-	variadic := rng.Intn(4) == 0
+	variadic := rng.Intn(3) == 0
 	var ptypes []string
 	for i := 0; i < np; i++ {
 		ptypes = append(ptypes, callParamTypes[rng.Intn(len(callParamTypes))])
@@ -109,7 +111,7 @@ func genCallProg(id int, seed int64) *Prog {
 	}
 	vt := ""
 	if variadic {
-		vt = []string{"int", "byte", "string"}[rng.Intn(3)]
+		vt = []string{"int", "byte", "string", "float64", "int8", "uint32"}[rng.Intn(6)]
 		sig = append(sig, "rest ..."+vt)
 	}
 	// callee body
@@ -127,7 +129,7 @@ func genCallProg(id int, seed int64) *Prog {
 	}
 	cb.WriteString(")\n")
 	if variadic {
-		cb.WriteString("\tfor _, r := range rest {\n\t\tfmt.Println(\"rest\", r)\n\t}\n")
+		cb.WriteString("\tfor _, r := range rest {\n\t\tfmt.Println(\"rest\", " + useParam("r", vt) + ")\n\t}\n")
 	}
 	var rets []string
 	for _, rt := range rtypes {
@@ -190,8 +192,16 @@ func genCallProg(id int, seed int64) *Prog {
 		case 0: // no extras
 		case 1:
 			n := 1 + rng.Intn(3)
+			mix := rng.Intn(3) // 0: any; 1: typed first, constants after; 2: constant first, typed after
 			for i := 0; i < n; i++ {
-				args = append(args, g.argFor(vt, true))
+				switch {
+				case vt == "string" || mix == 0:
+					args = append(args, g.argFor(vt, true))
+				case (mix == 1) == (i == 0):
+					args = append(args, g.input(vt))
+				default:
+					args = append(args, []string{"7", "3", "100", "1"}[rng.Intn(4)])
+				}
 			}
 		default:
 			if vt == "string" {
@@ -350,7 +360,7 @@ func checkC09(tier string, seed int64) int {
 	agg.Into(c, "")
 	c.Cov("call_forms", forms)
 	c.Cov("recursion_depths", depths)
-	c.Cov("rule", "seeded call programs: callee with 0–5 parameters over {int, byte, int8, uint32, float64, bool, string, []int, *T, func(int) int}, optional variadic tail (int/byte/string; none, 1–3 extras, or spread s...), 0–3 results; call forms statement, multi-assign, return f() wrapper, inside an expression, method, method value taken before the receiver variable is reassigned, function variable, struct field of func type, func parameter, func literal; arguments are distinct symbolic inputs, untyped constants or nil; plus recursion to the listed concrete depths with symbolic accumulator")
+	c.Cov("rule", "seeded call programs: callee with 0–5 parameters over {int, byte, int8, uint32, float64, bool, string, []int, *T, func(int) int}, optional variadic tail (int/byte/string/float64/int8/uint32; none, 1–3 extras mixing typed values and untyped constants in either order, or spread s...); parameters and variadic elements are printed with powers / quotients that reveal their static type, 0–3 results; call forms statement, multi-assign, return f() wrapper, inside an expression, method, method value taken before the receiver variable is reassigned, function variable, struct field of func type, func parameter, func literal; arguments are distinct symbolic inputs, untyped constants or nil; plus recursion to the listed concrete depths with symbolic accumulator")
 	c.Cov("paths_compared", st.compared)
 	return c.Finish(false)
 }
